@@ -266,6 +266,33 @@ def rw_for_slice(text: str, nth: int, mutable: bool) -> str:
   return text[:kwo] + new_head + new_body + text[lbc + 1:]
 
 
+def rw_for_zip(text: str, nth: int) -> str:
+  """R13z: `for (A, B) in X.iter().zip(Y) { BODY }` over two slice parameters becomes an index loop over the
+  shorter of the two (which is what zip does):
+       let mut verif_i: usize = 0;
+       while verif_i < X.len() && verif_i < Y.len() { let A = &X[verif_i]; let B = &Y[verif_i]; BODY verif_i += 1; }"""
+  a = fn_anatomy(text)
+  fors = [l for l in a.loops if l[0] == 'for']
+  if nth >= len(fors): raise Undecided('R13z: fn %s has no for-loop #%d' % (a.name, nth))
+  kw, kwo, lbo, lbc = fors[nth]
+  head = text[kwo:lbo]
+  m = re.match(r'^for\s+\(\s*(\w+)\s*,\s*(\w+)\s*\)\s+in\s+(\w+)\s*\.\s*iter\(\)\s*\.\s*zip\(\s*(\w+)\s*\)\s*$', head)
+  if not m: raise Undecided('R13z: loop header is not `for (A, B) in X.iter().zip(Y)`: %r' % head)
+  pa, pb, x, y = m.groups()
+  params = text[a.params_open:a.params_close + 1]
+  for nm in (x, y):
+    if not re.search(r'\b%s\s*:\s*&\s*\[' % re.escape(nm), params):
+      raise Undecided('R13z: `%s` is not a shared slice parameter' % nm)
+  body = text[lbo + 1:lbc]
+  if any(t.kind == 'id' and t.text == 'continue' for t in rsitems.lex(body)):
+    raise Undecided('R13z: loop body contains `continue`')
+  b = body.rstrip()
+  if b and not b.endswith(';') and not b.endswith('}'): b += ';'
+  new = ('let mut verif_i: usize = 0;\n    while verif_i < %s.len() && verif_i < %s.len() {\n      let %s = &%s[verif_i];\n      let %s = &%s[verif_i];'
+         % (x, y, pa, x, pb, y)) + b + '\n      verif_i += 1;\n    }'
+  return text[:kwo] + new + text[lbc + 1:]
+
+
 def rw_project_struct(text: str, keep: List[str]) -> str:
   """R10: keep only the named fields of a braced struct"""
   o = text.index('{')
@@ -519,6 +546,7 @@ def build_unit(name: str, variant: Optional[str] = None, canary: bool = False) -
         elif rule == 'R1': new = rw_mut_self(new)
         elif rule == 'R2': new = rw_slice_match(new)
         elif rule == 'R10': new = rw_project_struct(new, args['keep'])
+        elif rule == 'R13z': new = rw_for_zip(new, args.get('nth', 0))
         elif rule == 'R13': new = rw_for_slice(new, args.get('nth', 0), args.get('mutable', False))
         elif rule == 'R7f': new = rw_pub_fields(new)
         elif rule == 'R11': new = rw_derive(new, args.get('drop', []), args.get('add', []))
